@@ -200,7 +200,11 @@ func (l *linkedBuffer) Reserve(size int) ([]byte, error) {
 	}
 
 	// 3. alloc a new slice
-	buf, err := l.bufferManager.allocShmBuffer(uint32(size))
+	var buf *bufferSlice
+	err = ErrNoMoreBuffer
+	if l.shmUsable() {
+		buf, err = l.bufferManager.allocShmBuffer(uint32(size))
+	}
 	if err == nil {
 		//todo optimized only release the middle node
 		l.sliceList.pushBack(buf)
@@ -492,15 +496,23 @@ func (l *linkedBuffer) readNextSlice() {
 	l.currentPinned = false
 }
 
+// shmUsable reports whether buffers may still be taken from the share memory. Once the stream is closed, its session
+// may be gone as well and the share memory unmapped: whatever is written then only lives until Flush rejects it.
+func (l *linkedBuffer) shmUsable() bool {
+	return l.stream == nil || l.stream.getStreamState() != uint32(streamClosed)
+}
+
 func (l *linkedBuffer) alloc(size uint32) {
 	remain := int64(size)
-	buf, err := l.bufferManager.allocShmBuffer(size)
-	if err == nil {
-		l.sliceList.pushBack(buf)
-		return
+	if l.shmUsable() {
+		buf, err := l.bufferManager.allocShmBuffer(size)
+		if err == nil {
+			l.sliceList.pushBack(buf)
+			return
+		}
+		allocSize := l.bufferManager.allocShmBuffers(l.sliceList, size)
+		remain -= allocSize
 	}
-	allocSize := l.bufferManager.allocShmBuffers(l.sliceList, size)
-	remain -= allocSize
 	// fallback. alloc memory buffer (not shm)
 	if remain > 0 {
 		if remain < defaultSingleBufferSize {
